@@ -5,6 +5,11 @@ func VerifC02_q_sticky() {
 	vpReincarnation(vpScenarioOpts{prop: "C02", topos: []int{0, 1}, kinds: []int{vpKindSts, vpKindDp}, earlySteps: 1, lateSteps: 1, nodes: []string{"n1", "n5", "n2", "n3"}})
 }
 
+// BOUND: topology 0; kinds {statefulset, deployment}; symbolic policy; as VerifC02_q_sticky with 2 housekeeping steps while the pod is away, each out of {nothing, handle an event, resync, restart of galaxy-ipam (new plugin, tables rebuilt from the store, queued events lost)}: the reservation survives a restart followed by a resync
+func VerifC02_q_stickyAcrossRestart() {
+	vpReincarnation(vpScenarioOpts{prop: "C02", topos: []int{0}, kinds: []int{vpKindSts, vpKindDp}, earlySteps: 2, lateSteps: 0, nodes: []string{"n1", "n5", "n3"}, restarts: true})
+}
+
 
 // BOUND: topology 1 (4 IPs, two node subnets); a deployment with replicas 1 or 2 whose pods use a reserving policy (immutable, never) or a named pool p1 without size; all replicas bound; then a surge rolling update of one pod: the replacement is created and filtered before or after the old pod is deleted and its event handled (either order, a rejected filter is retried after the event); the replacement must be bound with an IP the deployment already held and the deployment never holds more IPs than replicas
 func VerifC02_q_rollingUpdate() {
